@@ -13,6 +13,8 @@ package main
 //   s<ms>        sleep
 //   c            close (FIN);   r  close with RST (linger 0)
 //   e<ms>        wait up to ms for EOF / error from the peer
+//   z            stop reading from this connection (the receive buffer is made small first): whatever the client
+//                writes from now on piles up in the socket buffers until its Write blocks;   Z  read again
 // After its script a connection is left open until the panel is closed.
 //
 // Used by the data-path families (netdata.go: C08, C09, C10, C12); nothing here knows about a property.
@@ -120,7 +122,7 @@ func parsePanelAction(tok string) (PanelAction, error) {
 			return a, err
 		}
 		a.Data = b
-	case 'h', 'c', 'r':
+	case 'h', 'c', 'r', 'z', 'Z':
 	default:
 		return a, errors.New("unknown panel action " + tok)
 	}
@@ -135,6 +137,7 @@ type panelConn struct {
 	cond     *sync.Cond
 	received int
 	ended    bool // reader saw EOF / error
+	paused   bool // the script told the reader to stop reading (action z)
 	closedBy bool // closed by the panel itself
 }
 
@@ -239,6 +242,11 @@ func (p *ScriptedPanel) reader(pc *panelConn) {
 	defer p.readers.Done()
 	buf := make([]byte, 1<<16)
 	for {
+		pc.mu.Lock()
+		for pc.paused && !pc.closedBy {
+			pc.cond.Wait()
+		}
+		pc.mu.Unlock()
 		n, err := pc.c.Read(buf)
 		if n > 0 {
 			p.tr.AddRx(pc.k, buf[:n])
@@ -248,6 +256,11 @@ func (p *ScriptedPanel) reader(pc *panelConn) {
 			pc.mu.Unlock()
 		}
 		if err != nil {
+			if ne, ok := err.(net.Error); ok && ne.Timeout() {
+				// action z interrupts a Read in flight through the read deadline: not the end of the connection
+				pc.c.SetReadDeadline(time.Time{})
+				continue
+			}
 			pc.mu.Lock()
 			byUs := pc.closedBy
 			pc.ended = true
@@ -302,9 +315,24 @@ func (p *ScriptedPanel) runScript(pc *panelConn, sc ConnScript) {
 			time.Sleep(time.Duration(a.N) * time.Millisecond)
 		case 'e':
 			waitCond(&pc.mu, pc.cond, time.Duration(a.N)*time.Millisecond, func() bool { return pc.ended || pc.closedBy })
+		case 'z', 'Z':
+			if a.Kind == 'z' {
+				if tc, ok := pc.c.(*net.TCPConn); ok {
+					tc.SetReadBuffer(4096)
+				}
+			}
+			pc.mu.Lock()
+			pc.paused = a.Kind == 'z'
+			pc.cond.Broadcast()
+			pc.mu.Unlock()
+			if a.Kind == 'z' {
+				pc.c.SetReadDeadline(time.Now()) // a Read in flight returns now; the reader then waits for Z
+			}
+			p.tr.Add("pause:%d:%s", pc.k, b01(a.Kind == 'z'))
 		case 'c', 'r':
 			pc.mu.Lock()
 			pc.closedBy = true
+			pc.cond.Broadcast()
 			pc.mu.Unlock()
 			p.tr.Add("cl:%d", pc.k)
 			if a.Kind == 'r' {
